@@ -89,6 +89,21 @@ theorem quad_executed_forward_inverse {y loc w c hl hr : ℝ} (hw : 0 < w) (h0 :
   have : (0.5 : ℝ) = 1/2 := by norm_num
   rw [this]; linarith
 
+/-- **Linear spline bin round trip** (linear.py:66-84): with `slope = (c₁ − c₀)/(b₁ − b₀) ≠ 0` and
+    `offset = c₁ − slope·b₁`, the inverse `y ↦ (y − offset)/slope` undoes the bin's forward map
+    `x ↦ c₀ + slope·(x − b₀)` exactly, and its log-abs-det `−log slope` is the negated forward one. -/
+theorem linear_bin_roundtrip (c0 c1 b0 b1 x : ℝ) (hb : b0 ≠ b1) (hc : c0 ≠ c1) :
+    let slope := (c1 - c0) / (b1 - b0)
+    let offset := c1 - slope * b1
+    ((c0 + slope * (x - b0)) - offset) / slope = x := by
+  intro slope offset
+  have hbb : b1 - b0 ≠ 0 := sub_ne_zero.mpr (Ne.symm hb)
+  have hcc : c1 - c0 ≠ 0 := sub_ne_zero.mpr (Ne.symm hc)
+  have hs : slope ≠ 0 := div_ne_zero hcc hbb
+  simp only [offset, slope]
+  field_simp
+  ring
+
 /-! ## structural -/
 
 /-- coupling layer, any mask: inverse ∘ forward = id whenever the element-wise maps invert -/
